@@ -255,6 +255,15 @@ func c03Directed() []struct {
 		mk("fold-mixed-eq-in-condition", &gen.Stmt{K: "if", E: bin("==", I(6), F(6)), Body: []*gen.Stmt{ret(S("same"))}, Else: []*gen.Stmt{ret(S("different"))}}),
 		mk("fold-mixed-eq-through-constant", decl("n", bin("/", I(10), I(2))), &gen.Stmt{K: "if", E: bin("==", V("n"), F(5)), Body: []*gen.Stmt{ret(S("same"))}, Else: []*gen.Stmt{ret(S("different"))}}),
 		mk("fold-mixed-ne-through-constants", decl("n", I(4)), decl("h", F(4)), &gen.Stmt{K: "if", E: bin("!=", V("h"), V("n")), Body: []*gen.Stmt{ret(S("differ"))}}, ret(S("same"))),
+		mk("fold-float-mod-zero", ret(bin("%", F(7.5), F(0)))),
+		mk("fold-float-div-zero", ret(bin("/", F(7.5), F(0)))),
+		mk("fold-int-mod-zero", ret(bin("%", I(7), I(0)))),
+		mk("fold-int-div-zero", ret(bin("/", I(7), I(0)))),
+		mk("fold-mixed-mod-zero", ret(bin("%", I(7), F(0)))),
+		mk("fold-float-mod-zero-through-constant", decl("z", F(0)), decl("q", bin("%", F(7.5), V("z"))), ret(V("q"))),
+		mk("fold-float-mod-computed-zero", ret(bin("%", F(7.5), bin("-", F(2.5), F(2.5))))),
+		mk("fold-int-div-zero-in-dead-branch", iff(B(false), ret(bin("/", I(7), I(0)))), ret(I(3))),
+		mk("fold-zero-divisor-behind-short-circuit", ret(bin("||", bin("<", V("fi"), I(1000000)), bin("==", bin("%", I(7), I(0)), I(1))))),
 		mk("cse-swapped-concat-strings", decl("p", bin("+", V("fs"), S("cd"))), decl("q", bin("+", S("cd"), V("fs"))), ret(&gen.Expr{K: "arr", A: []*gen.Expr{V("p"), V("q")}})),
 		mk("cse-swapped-concat-locals", decl("a", S("ab")), decl("b", V("fs")), decl("p", bin("+", V("a"), V("b"))), decl("q", bin("+", V("b"), V("a"))), ret(&gen.Expr{K: "arr", A: []*gen.Expr{V("p"), V("q")}})),
 		mk("cse-swapped-concat-arrays", decl("p", bin("+", V("fa"), &gen.Expr{K: "arr", A: []*gen.Expr{I(7)}})), decl("q", bin("+", &gen.Expr{K: "arr", A: []*gen.Expr{I(7)}}, V("fa"))), ret(&gen.Expr{K: "arr", A: []*gen.Expr{V("p"), V("q")}})),
